@@ -9,12 +9,19 @@
    GF(2)[x]/(x^8+x^4+x^3+x^2+1) resp. GF(2)[x]/(x^4+x+1), k sources at the first k points): for every
    k <= n <= 2^m, ANY k distinct codeword positions determine the k source elements (two source
    vectors that agree on k positions are equal), and the code is systematic.  The C encoders are tied
-   to this code by C06's correspondence; that the C decoders' in-place Gauss-Jordan inversion finds
-   this unique preimage is not a theorem: every decoded byte is compared with the encoded source on
-   the compiled C (every received subset of small codes, sampled subsets up to n = 255). *)
+   to this code by C06's correspondence.
+   Matrix inversion (GaussJordan.v: model of of_invert_mat, the in-place Gauss-Jordan of Numerical
+   Recipes with full pivot search, of which the library has three textually parallel copies): for every
+   k and every k x k matrix over GF(2^8) resp. GF(2^4), when it returns a matrix that matrix is the
+   two-sided inverse, and it reports failure exactly when the matrix is singular.  The three C copies are
+   compared with the extracted model on generated matrices (invertible, singular, permutation, decode-
+   matrix shaped, zero diagonal) on every run.  RSCore.v (when present) composes selection, decode matrix,
+   inversion and product into the decoding core and discharges `core_ok`; until then every decoded byte is
+   also compared with the encoded source on the compiled C (every received subset of small codes,
+   sampled subsets up to n = 255). *)
 From Coq Require Import Arith List Bool.
 From Coq Require Import NArith.
-From OFV Require Import ListAux RSApi RSApiProofs GF2Poly RSCanon.
+From OFV Require Import ListAux RSApi RSApiProofs GF2Poly RSCanon GaussJordan.
 Import ListNotations.
 
 Theorem rs_complete_iff_k_distinct :
@@ -57,7 +64,29 @@ Theorem rs16_systematic :
   forall k src j, k <= 16 -> length src = k -> Forall (fun a => (a < 16)%N) src -> j < k -> elem16 k src j = nth j src 0%N.
 Proof. exact elem16_systematic. Qed.
 
+Theorem gf256_matrix_inversion_returns_the_inverse :
+  forall k A B, wfN k A -> belowN 256 A -> invert_mat256 k A = Some B ->
+  wfN k B /\ belowN 256 B /\ mmul256 B A = mIN k /\ mmul256 A B = mIN k.
+Proof. exact invert_mat256_sound. Qed.
+
+Theorem gf256_matrix_inversion_fails_iff_singular :
+  forall k A, wfN k A -> belowN 256 A ->
+  (invert_mat256 k A = None <-> ~ exists B, wfN k B /\ belowN 256 B /\ mmul256 A B = mIN k).
+Proof. exact invert_mat256_none_iff_singular. Qed.
+
+Theorem gf16_matrix_inversion_returns_the_inverse :
+  forall k A B, wfN k A -> belowN 16 A -> invert_mat16 k A = Some B ->
+  wfN k B /\ belowN 16 B /\ mmul16 B A = mIN k /\ mmul16 A B = mIN k.
+Proof. exact invert_mat16_sound. Qed.
+
+Theorem gf16_matrix_inversion_fails_iff_singular :
+  forall k A, wfN k A -> belowN 16 A ->
+  (invert_mat16 k A = None <-> ~ exists B, wfN k B /\ belowN 16 B /\ mmul16 A B = mIN k).
+Proof. exact invert_mat16_none_iff_singular. Qed.
+
 Print Assumptions rs_complete_iff_k_distinct.
+Print Assumptions gf256_matrix_inversion_returns_the_inverse.
+Print Assumptions gf256_matrix_inversion_fails_iff_singular.
 Print Assumptions rs256_any_k_positions_determine_the_sources.
 Print Assumptions rs16_any_k_positions_determine_the_sources.
 Print Assumptions rs256_systematic.
